@@ -48,7 +48,7 @@ type c07Cell struct {
 	transport  string // inmem, io, sse, stateful, stateless
 	jsonResp   bool
 	store      bool
-	advertised string // all, legacy, mixed (only for inmem/io)
+	advertised string // all, legacy, mixed, old (only for inmem/io)
 	requested  string
 	// noSessionIDs: the server is configured with GetSessionID returning "" (a stateful endpoint that
 	// issues no Mcp-Session-Id); it is still a stateful endpoint and cannot serve 2026-07-28
@@ -110,6 +110,8 @@ func c07RunOn(s *Server, c c07Cell) (obs, sig, msg string) {
 		advertised = c07Legacy
 	case "mixed":
 		advertised = []string{"2026-07-28", "2025-06-18"}
+	case "old":
+		advertised = []string{"2025-06-18", "2025-03-26"}
 	}
 	transportSet := sdk
 	if c.transport == "sse" || c.transport == "stateful" {
@@ -173,7 +175,7 @@ func c07RunOn(s *Server, c c07Cell) (obs, sig, msg string) {
 	if requested == "" {
 		requested = latestProtocolVersion
 	}
-	mutual := slices.Contains(sdk, requested) && slices.Contains(transportSet, requested) &&
+	mutual := slices.Contains(sdk, requested) && slices.Contains(transportSet, requested) && slices.Contains(advertised, requested) &&
 		(requested < "2026-07-28" || modern)
 	if err != nil {
 		if mutual {
@@ -207,6 +209,9 @@ func c07RunOn(s *Server, c c07Cell) (obs, sig, msg string) {
 	}
 	if !slices.Contains(transportSet, got) {
 		return fail("negotiated-unsupported-by-transport "+c.transport, "negotiated %q, which the %s transport cannot serve", got, c.transport)
+	}
+	if !slices.Contains(advertised, got) {
+		return fail("negotiated-version-not-served-by-transport", "negotiated %q, but the server's transport declares (ProtocolVersionSupporter) that it serves only %v", got, advertised)
 	}
 	if got >= "2026-07-28" && !modern {
 		return fail("negotiated-modern-not-advertised", "negotiated %q although the server does not advertise it", got)
@@ -376,7 +381,7 @@ func TestVerifC07(t *testing.T) {
 	var cells []c07Cell
 	for _, r := range requested {
 		for _, tr := range []string{"inmem", "io"} {
-			for _, adv := range []string{"all", "legacy", "mixed"} {
+			for _, adv := range []string{"all", "legacy", "mixed", "old"} {
 				cells = append(cells, c07Cell{transport: tr, advertised: adv, requested: r})
 				if tr == "inmem" {
 					cells = append(cells, c07Cell{transport: tr, advertised: adv, requested: r, logged: true})
